@@ -86,6 +86,10 @@ def run_conc(mx, thr, programs, chooser, max_steps=4000):
         def locked(self_):
             return self_._l.locked()
 
+        @property
+        def owner(self_):
+            return self_._l.owner
+
         def __enter__(self_):
             self_.acquire()
             return self_
@@ -146,13 +150,43 @@ def run_conc(mx, thr, programs, chooser, max_steps=4000):
         if clock.now < wake:
             clock.set(wake)
 
+    class LockedOnly:
+        """Stands where the bucket keeps its consumption scheduler (passed through the public
+        constructor argument): every call must come from the thread that holds the bucket's lock --
+        the queue of refused requests and the accumulated wait are shared by all streams (lockset
+        check: a violation needs no particular interleaving to be seen)."""
+
+        def __init__(self_, inner):
+            self_.__dict__['_inner'] = inner
+
+        def __getattr__(self_, name):
+            v = getattr(self_.__dict__['_inner'], name)
+            if not callable(v):
+                return v
+
+            def call(*a, **k):
+                lk = st.get('bucket_lock')
+                if lk is not None and getattr(lk, 'owner', None) is not sched.me():
+                    add_viol('unlocked-scheduler', f'ConsumptionScheduler.{name} called by {sched.me().name} without holding the '
+                                                   f'bucket lock (owner: {getattr(getattr(lk, "owner", None), "name", None)}): the queue of '
+                                                   'scheduled requests and the accumulated wait are shared state')
+                return v(*a, **k)
+            return call
+
     old = bw.threading
     bw.threading = ns
     try:
         tracker = Tracker(bw.BandwidthRateTracker())
-        real = bw.LeakyBucket(mx, time_utils=VTime(), rate_tracker=tracker)
+        try:
+            real = bw.LeakyBucket(mx, time_utils=VTime(), rate_tracker=tracker,
+                                  consumption_scheduler=LockedOnly(bw.ConsumptionScheduler()))
+        except TypeError:       # the constructor no longer takes the scheduler: run without the lockset check
+            real = bw.LeakyBucket(mx, time_utils=VTime(), rate_tracker=tracker)
     finally:
         bw.threading = old
+    from harness import names as _names
+    lk_name = _names.find_attr(real, lambda v: hasattr(v, 'owner') and hasattr(v, 'acquire'), '_lock')
+    st['bucket_lock'] = getattr(real, lk_name, None)
     mon = c13.Monitor(mx, clock)
 
     class Bucket:
